@@ -9,6 +9,7 @@ SILENT_FOR = {
  "S7": ["C05","C08"], "S8": ["C16"], "S10": ["C11"], "S12": ["C15","C08"], "S14": ["C13"], "S15": ["C16"],
  "S16": ["C17"], "S17": ["C15"], "S19": ["C09","C08"], "S20": ["C10","C08"], "S21": ["C20","C07"],
  "S22": ["C02","C04"], "S23": ["C04"], "S25": ["C06","C08"], "S26": ["C18","C08"],
+ "S27": ["C01","C02","C04"], "S28": ["C12"], "S29": ["C03"],
 }
 fire = {}
 for line in open(sys.argv[1]):
